@@ -135,6 +135,8 @@ def gen_random(tier, seed):
 
 def suites(tier, seed):
     return [
+        Suite("wire-e2e", "bp", lambda: __import__("props.c18", fromlist=["x"]).wire_cases(tier), monitor=__import__("props.c18", fromlist=["x"]).e2e_monitor, nontrivial=lambda c, il: True, compare=False, shards=4, timeout=300,
+              rule="real connection + I/O thread over the mock transport, publisher threads: 1.5 MiB and 6 MiB queued during a stall and then taken by the transport in partial writes of 256 KiB; a write call failing with EINTR after partial writes: every message on the wire once, intact, in order, whole frames (after a transport failure: a clean prefix)"),
         Suite("publish-sweep", "api", lambda: sweep(tier, seed), monitor=monitor, nontrivial=nontrivial, canon=apigen.canon, exhaustive=True,
               rule="negotiated frame_max in {4096, 4097, 8192 (+4104, 131072 thorough), 2^32-1} x body lengths {0, 1, 2, k*(fm-8)+{-1,0,1} for k=1..3} x all 4 mandatory/immediate combinations x random properties (none / some / all 14) x random channel id, 1-2 consecutive publishes, through Channel::basic_publish and Exchange::publish"),
         Suite("publish-random", "api", lambda: gen_random(tier, seed), monitor=monitor, nontrivial=nontrivial, canon=apigen.canon,
